@@ -490,8 +490,10 @@ void tick_scalar() {
       S.stats->fired_scalar++;
       throw ScalarFault();
     }
+#if !defined(SIM_SELFCHK)
   } else if (S.active && S.cfg.static_init_throw && ++S.static_ticks == S.cfg.static_init_throw) {
     throw ScalarFault();  // StaticInitThrow: exercises __cxa_guard_abort
+#endif
   }
   yield_point(Y_SCALAR);
 }
@@ -666,9 +668,15 @@ static inline void free_prologue(void *p) {
 
 }  // namespace sim
 
-#if defined(SIM_TSAN)
-// TSan's runtime owns operator new/delete; intercept the calls made from the
-// code compiled into the simulator with -Wl,--wrap (DESIGN §2.2(7)).
+#if defined(SIM_TSAN) || defined(SIM_VG)
+// TSan's runtime owns operator new/delete (and valgrind redirects them by
+// name); intercept the calls made from the code compiled into the simulator
+// with -Wl,--wrap instead of replacing them (DESIGN §2.2(7)).
+#if defined(SIM_VG)
+#define SIM_FILL(p, n) ((void)0)  /* keep memcheck's definedness tracking */
+#else
+#define SIM_FILL(p, n) memset(p, 0xCD, n)
+#endif
 extern "C" {
 void *__real__Znwm(size_t);
 void *__real__Znam(size_t);
@@ -679,14 +687,14 @@ void __real__ZdaPvm(void *, size_t);
 void *__wrap__Znwm(size_t n) {
   bool lib = sim::alloc_prologue();
   void *p = __real__Znwm(n);
-  memset(p, 0xCD, n);
+  SIM_FILL(p, n);
   if (lib) sim::live_add(p);
   return p;
 }
 void *__wrap__Znam(size_t n) {
   bool lib = sim::alloc_prologue();
   void *p = __real__Znam(n);
-  memset(p, 0xCD, n);
+  SIM_FILL(p, n);
   if (lib) sim::live_add(p);
   return p;
 }
@@ -712,9 +720,7 @@ static void *sim_alloc(size_t n) {
   bool lib = sim::alloc_prologue();
   void *p = malloc(n ? n : 1);
   if (!p) throw std::bad_alloc();
-#if !defined(SIM_VG)
   memset(p, 0xCD, n);  // pattern fill: uninitialised scalars get a garbage tag
-#endif
   if (lib) sim::live_add(p);
   return p;
 }
